@@ -595,6 +595,20 @@ def stepCore (e : Env) (line : String) : Env × String :=
         for c in fr.cons do items := items ++ [← showCons c]
         pure (String.intercalate " ## " items))
       pure (e, s)
+    | ["dump.mosekduals"] =>
+      -- `MosekWrapper._recover_dual_values` on a scripted solution (row r carries 7000 + r, matrix variable j carries 8000 + j):
+      -- what every sent item must receive is `Mosek.mspec` (theorem `C11.mrecover_spec`)
+      let (calls, _) ← runM e mosekEmit
+      match calls with
+      | .error _ => pure (e, "MOSEK-ERROR")
+      | .ok _ =>
+        let (items, _) ← runM e cvxItems
+        let ds := mspec (fun r => 7000 + r) (fun b => 8000 + b) 0 1 items
+        -- the multiplier of a 0 x 0 LMI (a class LMI over no sample) is an empty array
+        let toks := (items.zip ds).map fun (it, d) => match it with
+          | .psd _ 0 => "empty"
+          | _ => toString d
+        pure (e, "duals=" ++ String.intercalate "," ("8000" :: toks))
     | ["dump.task"] =>
       let (calls, _) ← runM e mosekEmit
       let showTrips (l : List Trip) : String :=
